@@ -148,6 +148,7 @@ pub fn data_builder<'a>(m: &Model, spec: &DataSpec) -> AnnotationDataBuilder<'a>
             let setitem: BuildItem<AnnotationDataSet> = match set {
                 SetRef::Existing(r) => bi(&m.set_target(r).req),
                 SetRef::Literal(s) => BuildItem::Id(s.clone()),
+                SetRef::Unnamed => BuildItem::None,
             };
             let mut b = AnnotationDataBuilder::new()
                 .with_dataset(setitem)
@@ -463,6 +464,7 @@ pub fn annotations_json(m: &Model, items: &[(Option<String>, Sel, Vec<DataSpec>)
                     let set = match set {
                         SetRef::Existing(r) => req_id(&dscratch.set_target(r).req, "S"),
                         SetRef::Literal(s) => s.clone(),
+                        SetRef::Unnamed => crate::ops::DEFAULT_SET.to_string(),
                     };
                     let mut d = serde_json::Map::new();
                     d.insert("@type".into(), json!("AnnotationData"));
